@@ -32,7 +32,7 @@ Var::Var(Type t)
 	switch(_type=t)
 	{
 	case SSTRING: _ss[0] = '\0'; break;
-	case STRING: NEW_STRING(_s); break;
+	case STRING: NEW_STRINGC(_s, 1); (*_s)[0] = '\0'; break; // an empty string, with its terminator
 	case ARRAY: NEW_ARRAY(_a); break;
 	case OBJ: NEW_DIC(_o); break;
 	default: break;
